@@ -279,6 +279,7 @@ NOT_APPLICABLE = {
 PENDING_REASON = "not claimed yet: the solver-based harness for this property has not been built/validated in this tree (see DESIGN.md section 4 for the planned obligations)"
 
 ALL = ["C%02d" % i for i in range(1, 21)]
+UNSIZED_THOROUGH = {"C03", "C04", "C05", "C08", "C12"}
 
 
 def main():
@@ -295,7 +296,8 @@ def main():
             "replay_cmd_template": "./check %s --replay {path}" % pid,
             "engine": "sx",
             "level_claimed": {"category": c["category"], "text": c["text"], "design_ref": c["design_ref"]},
-            "level_note": c["note"],
+            "level_note": c["note"] + ("" if pid not in UNSIZED_THOROUGH else "; THOROUGH TIER: the deeper bounds written in the check module were not seen to "
+                                       "finish inside the budget on this tree, so the thorough command explores the quick bounds again (checks/main.py THOROUGH_SIZED)"),
             "technique": c.get("technique", TECH),
         })
     na = []
@@ -323,7 +325,8 @@ def main():
         }],
         "checks": checks,
         "not_applicable": na,
-        "notes": "Exit codes of ./check: 0 held, 1 violation (replayed), 2 inconclusive, 3 harness error. Known findings: known_findings.json.",
+        "notes": "Exit codes of ./check: 0 held, 1 violation (replayed), 2 inconclusive, 3 harness error. Known findings: known_findings.json. "
+                 "Bounds given as 'a (b)' or 'a -> b' in a check's text are quick (thorough); see DESIGN.md section 8 for which thorough tiers are sized.",
     }
     with open(os.path.join(ROOT, "MANIFEST.json"), "w") as fp:
         json.dump(man, fp, indent=1)
